@@ -170,6 +170,7 @@ type Result struct {
 	Trace    []TraceEvent
 	SigStep  int
 	SigTime  time.Duration
+	SigFired bool // Ctrl-C was delivered (SigStep and SigTime may both be 0: before the first step)
 	Strategy string
 }
 
@@ -242,7 +243,7 @@ func Execute(t *testing.T, cfg Config, setup func(r *Run), driver func(r *Run)) 
 	res = Result{
 		End: r.end, Steps: r.step, Virt: r.lastNow(), Hash: r.hash, Panics: r.panics,
 		Blocked: r.blocked, Probes: r.probes, Faults: r.faults, Multi: r.multi, MaxG: r.maxG,
-		Spawned: r.spawned, Trace: r.trace, SigStep: r.SigStep, SigTime: r.SigTime,
+		Spawned: r.spawned, Trace: r.trace, SigStep: r.SigStep, SigTime: r.SigTime, SigFired: r.sigFired,
 		Strategy: strategyNames[r.strategy],
 	}
 	return res
